@@ -225,7 +225,8 @@ def run_property(pid, tier, only=None, jobs=16, seed=0, budget_s=None):
     SPEC = importlib.import_module("specs." + pid.lower())
     kf = load_known()
     KNOWN = kf.get("findings", [])
-    harnesses = [h for h in SPEC.HARNESSES if only is None or h.name in only]
+    tier_names = getattr(SPEC, "TIER_HARNESSES", {}).get(tier)
+    harnesses = [h for h in SPEC.HARNESSES if (only is None and (tier_names is None or h.name in tier_names)) or (only and h.name in only)]
     total_budget = budget_s or getattr(SPEC, "BUDGET_S", {}).get(tier, 900 if tier == "quick" else 3600)
 
     agg = {h.name: dict(stats={}, violations=[], witnesses=[], mismatches=[], sites={}, errors=[], roots=0, lemmas=[])
